@@ -15,8 +15,8 @@ import random
 from ..core import emit_behaviours, model_check, pool_map, sany, validate_traces
 
 META = {
-    'text': 'TLC model-checks the ordering automaton of the node life cycle over every attachment graph on 2 (thorough: '
-            '3) modules incl. self loops, cycles, dangling and wrongly typed attachments, scripted early/late init '
+    'text': 'TLC model-checks the ordering automaton of the node life cycle over every attachment graph on 2 modules (thorough: '
+            'also 3 modules with at most 2 attachments in total) incl. self loops, cycles, dangling and wrongly typed attachments, scripted early/late init '
             'failures and poll/write flags: ready implies a healthy, completely started node with its configured values '
             'written; a refused node never touched the hardware; shutdown respects the attachment order; healthy '
             'configurations are never stuck. Every configuration TLC enumerates is built as real module classes with '
